@@ -156,6 +156,7 @@ Inductive Em : nat -> nat -> list code -> nat -> bool -> Prop :=
 | em_cjmp ko l : Em ko l [KCJmp ko] l false
 | em_st ko l : Em ko l [KSt] l false
 | em_cjmp_st ko l : Em ko l [KCJmp ko; KSt] l false
+| em_pred ko l : Em ko l [KBlock [KSt; KCJmp ko]] l false
 | em_seq ko l a l1 lla b l2 llb :
     Em ko l a l1 lla -> Em ko l1 b l2 llb -> Em ko l (a ++ b) l2 (match b with [] => lla | _ => llb end)
 | em_ipush ko l c l1 ll : Em ko (S l) c l1 ll -> Em ko l [KBlock (KSaveP l :: c ++ [KUseP l])] l1 false
@@ -478,6 +479,7 @@ Proof.
   - apply scoped_cjmp. left. reflexivity.
   - reflexivity.
   - apply scoped_cons; [apply scoped_cjmp; in_scope|reflexivity].
+  - (* pred *) rewrite scoped_block. apply scoped_cons; [reflexivity|]. apply scoped_cjmp. in_scope.
   - (* seq *) hu_norm H3. apply scoped_app.
     + eapply scoped_into; [apply H0; intros; by_hu H3|]. intros _. in_scope.
     + eapply scoped_into; [apply H2; intros; by_hu H3|]. intros _. in_scope.
